@@ -8,6 +8,11 @@ def nontrivial(req, obs):
     f = req.split("\t")
     if f[0] == "C16.conv":
         return True
+    if f[0] == "C16.seq":
+        # at least two declarations and two call sites that show a verdict
+        items = f[1].split("|") if len(f) > 1 else []
+        return (sum(1 for i in items if i.startswith("d~")) >= 2
+                and sum(1 for o in obs.split(" | ") if o not in ("=", "noname", "-")) >= 2)
     # at least two candidates of which the verdict is not simply "nothing viable": count distinct decisions
     return len(f) in (3, 4) and f[1].count(";") >= 1 and obs != "-"
 
@@ -44,8 +49,64 @@ def finding_key(req, obs, detail):
     return req
 
 
+def _shrink_seq(f):
+    """drop one item of a sequence (a declaration together with its definition and never a compiler-provided one; a helper
+    together with its triggers), then drop one parameter / argument position everywhere"""
+    items = f[1].split("|")
+    tail = f[2:]
+
+    def line(its):
+        return "\t".join([f[0], "|".join(its)] + tail)
+
+    for i, it in enumerate(items):
+        p = it.split("~")
+        if p[0] == "d":
+            cid = p[2].split(":")[0]
+            if int(cid) >= 1000:
+                continue
+            yield line([x for k, x in enumerate(items) if k != i and x != "r~" + cid])
+        elif p[0] == "h":
+            yield line([x for k, x in enumerate(items) if k != i and not x.startswith("t~%s~" % p[1])])
+        else:
+            yield line(items[:i] + items[i + 1:])
+    # one argument position less everywhere
+    arities = set()
+    for it in items:
+        p = it.split("~")
+        if p[0] == "c":
+            arities.add(len(p[2].split(",")) if p[2] else 0)
+        elif p[0] == "h":
+            arities.add(len(p[3].split(",")) if p[3] else 0)
+    if len(arities) == 1 and min(arities) > 1 and not any(it.startswith("d~") and int(it.split("~")[2].split(":")[0]) >= 1000
+                                                            for it in items):
+        n = min(arities)
+        for k in range(n):
+            new, ok = [], True
+            for it in items:
+                p = it.split("~")
+                if p[0] == "d":
+                    cid, nd, ps, suf = _split_cand(p[2])
+                    if k >= len(ps):
+                        ok = False
+                        break
+                    new.append("~".join([p[0], p[1], _join_cand(cid, nd, ps[:k] + ps[k + 1:], suf)]))
+                elif p[0] == "c":
+                    a = p[2].split(",")
+                    new.append("~".join([p[0], p[1], ",".join(a[:k] + a[k + 1:]), p[3]]))
+                elif p[0] == "h":
+                    a = p[3].split(",")
+                    new.append("~".join([p[0], p[1], p[2], ",".join(a[:k] + a[k + 1:])]))
+                else:
+                    new.append(it)
+            if ok:
+                yield line(new)
+
+
 def shrink(req):
     f = req.split("\t")
+    if f[0] == "C16.seq" and len(f) in (2, 3):
+        yield from _shrink_seq(f)
+        return
     if f[0] != "C16.resolve" or len(f) not in (3, 4):
         return
     opts = [o for o in (f[3].split(",") if len(f) == 4 and f[3] else [])]
@@ -130,7 +191,15 @@ def search(ctx):
                 bad = True
         (suspicious if bad else rest).extend(g)
     ctx.extra["search_model_suspicious"] = len(suspicious)
-    return suspicious + rest[:6000]
+    # calls interleaved with declarations: declare, call, declare the other, the same call again (and once more as an
+    # rvalue / lvalue twin) - the shape a verdict carried over from an earlier call shows up in
+    seqs = []
+    for a, b in itertools.permutations(params, 2):
+        for x in args:
+            twin = ("R" if x[0] == "L" else "L") + x[1:] if "Literal" not in x else x
+            seqs.append("C16.seq\td~0~0:1:%s|c~0~%s~|d~0~1:1:%s|c~0~%s~|c~0~%s~" % (a, x, b, x, twin))
+    step = max(1, len(seqs) // 3000)
+    return suspicious + seqs[::step] + rest[:6000]
 
 
 SPEC = {
@@ -161,8 +230,11 @@ SPEC = {
         "template_param_matches_exactly", "templates_never_panic", "resolveT_no_panic", "unique_exact_selectedT",
         # the call after the resolution: apply_casts + check_output_arguments on the selected overload
         "output_arguments_checked", "callT_perm", "callT_accepted", "callT_refused", "out_vec1_is_refused",
+        # calls interleaved with declarations: the verdict at a site is the resolution on the candidates visible there
+        "site_verdict_is_resolution_of_visible", "visible_prefix_independent", "nothing_visible_is_unknown_name",
+        "registry_is_transparent", "template_body_site_resolved_at_first_instantiation", "observations_are_at_places",
         # the source text of the transcribed routines, re-extracted each run
-        "resolve_shape_as_modelled", "resolve_source_as_transcribed"]],
+        "resolve_shape_as_modelled", "resolution_reads_no_call_history", "resolve_source_as_transcribed"]],
     "harness": "c16",
     "nontrivial": nontrivial,
     "finding_key": finding_key,
@@ -178,12 +250,24 @@ SPEC = {
                   "is proved equal to it; for declared overloads (parameters T / vector<T,n> / matrix<T,x,y>, any explicit "
                   "template arguments) no panic site is reachable, and the verdict on the whole call - resolution, then the "
                   "check that an out / inout argument is a mutable lvalue of exactly the parameter's type - is proved order "
-                  "independent too. The rank tables and the text of the transcribed routines are re-extracted from the "
-                  "source each run (a reshaped loop stops the theorems from checking); the model is compared with the real "
+                  "independent too. Calls interleaved with declarations: a model of the type checker's walk through a "
+                  "translation unit (declarations push onto the symbol vector of their scope, reopened namespaces, a struct "
+                  "registers all methods before the first body, the compiler's own overloads lead the root vector, a "
+                  "definition of a declared function inserts nothing, a call in a template body is resolved when the first "
+                  "call of that instance is checked) is proved to show at every call site the resolution on exactly the "
+                  "candidates visible there - declared above the call in the scope the lookup reaches - so the verdict is a "
+                  "function of the visible set and the argument types only (visible_prefix_independent: any two sites that "
+                  "see the same candidates in any order agree), and the one piece of state the code carries from call to "
+                  "call, the function registry's table of template instantiations, is threaded through a second model and "
+                  "proved to change no verdict (registry_is_transparent). The rank tables and the text of the transcribed routines are re-extracted from the "
+                  "source each run (a reshaped loop stops the theorems from checking), and so are every path through "
+                  "`context` in the resolution routines and the field list of the typer's Context "
+                  "(resolution_reads_no_call_history: a memo of resolved calls is a new field and a new path); the model is compared with the real "
                   "type checker on generated programs under every declaration order on every call path that reaches "
                   "find_function_type (free functions, methods called from outside and inside, methods of struct templates, "
                   "namespaces qualified / reopened / hiding / absolute, user overloads of intrinsics, intrinsic methods of "
-                  "objects, function templates with deduced and explicit template arguments) and with "
+                  "objects, function templates with deduced and explicit template arguments), on programs that declare the "
+                  "overloads one by one and call the name after each declaration (C16.seq) and with "
                   "ImplicitConversion::find/get_rank/get_target_type on an exhaustive table of type pairs.",
     "rule": "C16.resolve requests = (candidate list in declaration order, argument types, options) compiled as an RSSL program "
             "whose overloads return distinct structs and whose call is wrapped in assert_type<R>(f(args)); the verdict is read "
@@ -200,17 +284,30 @@ SPEC = {
             "selected candidate is viable and not dominated, conversion quality taken from a hand-written copy of the priority "
             "table in casting.rs's header comment; an accepted call converts no out / inout argument, and a call is refused for "
             "an output argument only if an undominated viable candidate needs such a conversion and no candidate matches "
-            "exactly. C16.conv requests = one row of the exhaustive find/get_rank/"
+            "exactly. C16.seq requests = one translation unit: declarations of overloads (root scope, `namespace N` "
+            "reopened per declaration, methods of one or two structs or of a struct template, user overloads behind the "
+            "compiler's own overloads of an intrinsic; templates among them), definitions of functions declared before, "
+            "call sites with lookup mode (f / N::f / f inside N / ::f inside N / sibling method / s.f), helper function "
+            "templates and struct templates with a call in their body and the calls that instantiate them; the verdict of "
+            "every call site is read from the accepted module (Call node of the calling function, for a helper the body of "
+            "the instance; a second call of an instance shows `=`) or, for a refused site, from the error of the program "
+            "that holds the declarations, the accepted earlier sites and this one. Oracle per site: the C16.resolve oracle on "
+            "the candidates visible at the site (declared above it in the scope the lookup reaches; all methods of the "
+            "struct), and equality with the verdict of a separate program that declares exactly that set and calls once. "
+            "C16.conv requests = one row of the exhaustive find/get_rank/"
             "get_target_type table over 8 scalar kinds x {scalar, vec1-4, 2 matrices} + enums + structs x "
             "{none,const,volatile} x {lvalue,rvalue}. non-trivial = at least two candidates / a table row.",
     "trusted_base": [
         "Lean 4.33 kernel; axioms propext / Classical.choice / Quot.sound only (audited by #print axioms)",
         "tools/gens/c16.py — RankTable (ScalarType, NumericDimension, InputModifier->ValueType, NumericRank + order + "
         "compare, VectorRank + worst_to_best, the (source_scalar,dest_scalar) rank match, get_rank's DimensionCast match) and "
-        "ResolveShape (27 regular-expression facts about find_function_type / find_overload_casts / apply_templates / "
+        "ResolveShape (35 regular-expression facts about find_function_type / find_overload_casts / apply_templates / "
         "build_function_template_signature / build_intrinsic_template / write_function / write_method / "
         "ImplicitConversion::apply / Expression::get_type / find_identifier / find_identifier_in_scope / "
-        "insert_function_in_scope / get_struct_member_expression, the callers of find_function_type, and the comment- and "
+        "insert_function_in_scope / get_struct_member_expression / parse_function / parse_struct_internal / "
+        "build_function_template_body / ensure_struct_template / FunctionRegistry::find_instantiation, the callers of "
+        "find_function_type, every `context...` path in the four resolution routines, every `self...` path in the two "
+        "signature-instantiation routines, the fields of struct Context, and the comment- and "
         "whitespace-free text of find_function_type, find_overload_casts, try_infer_template_type, "
         "normalize_template_type, apply_template_type_substitution, check_output_arguments, check_mutable_place) — re-run "
         "on /repo's working tree every time",
@@ -218,7 +315,12 @@ SPEC = {
         "Model/OverloadT.lean (find_function_type, the template half of find_overload_casts and the output-argument check "
         "that follows the resolution: `callT` = `resolveTLazy`, the loop-by-loop transcription, then `checkOutputs`, answers "
         "the correspondence requests; `resolveT`/`resolveG` is the form the theorems use, proved equal); Model/OverloadSrc.lean holds the source text they were transcribed from "
-        "(resolve_source_as_transcribed) — their *meaning* is tied to the code by the correspondence run only",
+        "(resolve_source_as_transcribed) — their *meaning* is tied to the code by the correspondence run only; "
+        "Model/OverloadSeq.lean (the walk through a translation unit: which vector find_identifier hands over at a call "
+        "site, when a template body is checked, the instantiation registry) and Spec/OverloadSeq.lean (`visibleAt`: our "
+        "reading of 'the set of visible candidates' for a call that stands between declarations) are hand-written; the "
+        "statements of the code the walk relies on are 8 of the ResolveShape facts, its behaviour is compared on the "
+        "C16.seq stream",
         "Spec/Overload.lean: our reading of better/worse conversions, domination and exact match; harness/src/c16.rs: the "
         "oracle's hand-written conversion-quality table, its reading of template argument deduction, and "
         "ImplicitConversion::find(..).is_ok() as the definition of 'viable', its reading of 'an out or inout argument can "
@@ -236,8 +338,14 @@ SPEC = {
         "(resolve_shape_as_modelled) and exercised by the call-path streams, not modelled in Lean",
         "template parameters appear in parameter types only as T, vector<T,n>, matrix<T,x,y>, T[n]; the compiler's own "
         "templates (Load<T>, Store(uint,T), DispatchMesh) mention their type parameter in a parameter or the return type "
-        "(a constant given for it then fails the substitution, as the kind check does for user templates); one call per "
-        "program (the instantiation cache is never hit twice)",
+        "(a constant given for it then fails the substitution, as the kind check does for user templates)",
+        "calls interleaved with declarations: overloads of ONE name in at most two scopes (root + one namespace, or two "
+        "structs); a call site is a function body of its own (a refused site ends a real compilation, so the verdicts "
+        "of a unit are read one site at a time on top of the accepted earlier ones); a call in a template body is "
+        "observed for function templates and struct templates with one type parameter instantiated with int / float; a "
+        "call refused inside a struct template's method body shows no reason (`rej`: the type checker reports the use of "
+        "the template instead); three-level scope chains (N::K) and forward-declared callers are covered by the "
+        "one-call paths / by experiment only",
         "check_output_arguments beyond the type of the (converted) argument - the walk of check_mutable_place through "
         "member / swizzle / subscript expressions to the variable - depends on the argument expression, not on its type: "
         "not modelled (C03 owns it); the generated programs pass locals, members of a non-const local struct, static "
